@@ -199,7 +199,7 @@ Definition typed_ok (p : param) : Prop :=
       match p_dims p with
       | [] => False
       | [w] => (w = 0 /\ p_strs p = []) \/ (w <> 0 /\ exists s0, p_strs p = [s0] /\ str_ok w s0)
-      | w :: rest => nlen (p_strs p) = prodN rest /\ Forall (str_ok w) (p_strs p)
+      | w :: rest => nlen (p_strs p) = prodN rest /\ Forall (str_ok w) (p_strs p) /\ loop_cost rest 1 <= LIMC
       end
   | TNone => False
   end.
@@ -235,7 +235,7 @@ Proof.
     + cbn [prodN] in *. destruct T as [[-> Es]|[Nw [s0 [Es Hs]]]]; rewrite Es.
       * cbn. reflexivity.
       * assert (E : (Z.of_N (w * 1) <=? 0)%Z = false) by lia. rewrite E. cbn [map concat]. rewrite app_nil_r. reflexivity.
-    + destruct T as [Hn Hs]. destruct (Z.of_N (prodN (w :: r :: rest')) <=? 0)%Z eqn:E.
+    + destruct T as [Hn [Hs _]]. destruct (Z.of_N (prodN (w :: r :: rest')) <=? 0)%Z eqn:E.
       * (* nothing to write: either no string or only empty ones *)
         assert (Z0 : w * prodN (r :: rest') = 0) by (cbn [prodN] in E |- *; lia).
         apply N.eq_mul_0 in Z0. destruct Z0 as [Zw|Zr].
@@ -274,14 +274,16 @@ Proof.
     unfold read_strings. rewrite <- (app_nil_r (concat _)). eapply reads_bind; [|apply reads_ret].
     eapply reads_pure_bind; [intros st; apply blowup_ok; exact Hc|].
     destruct rest as [|r rest'].
-    + cbn [prodN]. rewrite N.mul_1_r. destruct T as [[-> Es]|[Nw [s0 [Es Hs]]]]; rewrite Es.
+    + eapply reads_pure_bind; [intros st; apply blowup_ok; unfold LIMC; cbn; lia|].
+      cbn [prodN]. rewrite N.mul_1_r. destruct T as [[-> Es]|[Nw [s0 [Es Hs]]]]; rewrite Es.
       * cbn [map concat N.to_nat rd_many]. eapply reads_pure_bind; [intros st; reflexivity|]. cbn. apply reads_ret.
       * cbn [map concat]. rewrite app_nil_r. rewrite <- (app_nil_r (pad_to w s0)).
         destruct Hs as [Hl [Hn Ht]].
         eapply reads_bind.
         { rewrite <- (pad_to_length w s0 Hl). apply reads_cells. apply pad_to_no_nul. exact Hn. }
         assert (E : (w =? 0) = false) by lia. rewrite E. rewrite concat_singletons, (rtrim_pad w s0 Ht). apply reads_ret.
-    + destruct T as [Hn Hs]. rewrite <- (app_nil_r (concat _)). eapply reads_bind.
+    + destruct T as [Hn [Hs Hc2]]. eapply reads_pure_bind; [intros st; apply blowup_ok; exact Hc2|].
+      rewrite <- (app_nil_r (concat _)). eapply reads_bind.
       { assert (L : N.to_nat (prodN (w :: r :: rest')) = length (concat (map (pad_to w) (p_strs p)))).
         { rewrite (concat_pad_length w _ Hs). cbn [prodN] in *. unfold nlen in Hn. lia. }
         rewrite L. apply reads_cells. apply concat_pad_no_nul. exact Hs. }
@@ -568,18 +570,20 @@ Theorem set_strs_wf : forall p data dims q,
   name_ok (p_name p) -> desc_ok (p_desc p) ->
   Forall (fun s => no_nul s /\ rtrim s = s) data ->
   (let d := maxlen data :: dims_or_len dims (nlen data) in
-   (length d <= 255)%nat /\ Forall byte_ok d /\ prodN d < 2147483648 /\ loop_cost d 1 <= LIMC /\ prodN (dims_or_len dims (nlen data)) < 2147483648) ->
+   (length d <= 255)%nat /\ Forall byte_ok d /\ prodN d < 2147483648 /\ loop_cost d 1 <= LIMC /\ prodN (dims_or_len dims (nlen data)) < 2147483648 /\
+   loop_cost (dims_or_len dims (nlen data)) 1 <= LIMC) ->
   wf_param q.
 Proof.
-  intros p data dims q H Ei Ef Hn Hd Hs Hdims. cbv zeta in Hdims. destruct Hdims as (L & Hb & Hp & Hc & Hp2).
+  intros p data dims q H Ei Ef Hn Hd Hs Hdims. cbv zeta in Hdims. destruct Hdims as (L & Hb & Hp & Hc & Hp2 & Hc2).
   unfold set_strs in H. destruct (dim_consistent (nlen data) (dims_or_len dims (nlen data))) eqn:C; [|discriminate].
   injection H as <-. unfold wf_param. cbn [p_name p_desc p_dims p_type p_ints p_floats p_strs].
   split; [exact Hn|]. split; [exact Hd|]. split.
   - unfold dims_ok. split; [discriminate|]. auto.
   - unfold typed_ok. cbn [p_type p_ints p_dims p_floats p_strs]. split; [exact Ei|]. split; [exact Ef|].
     destruct (dims_or_len dims (nlen data)) as [|d0 dt] eqn:D; [exfalso; eapply dims_or_len_ne; exact D|].
-    split.
+    split; [|split].
     + apply shape_covers; [discriminate|exact C|exact Hp2].
     + apply Forall_forall. intros s Hin. rewrite Forall_forall in Hs. destruct (Hs s Hin) as [A B].
       unfold str_ok. split; [|split; assumption]. apply (proj1 (maxlen_spec data)). exact Hin.
+    + exact Hc2.
 Qed.
